@@ -240,8 +240,58 @@ def ext2_instrs():
     return I
 
 
+def mem_instrs():
+    """memory instructions with an immediate address: which request reaches the memory chiplet (current context,
+    the immediate as address, the word written) and where the word read ends up (word element i at stack position 3 - i)"""
+    I = {}
+
+    def mem_events(events):
+        return [e for e in events if e[0] == "chiplets" and "mem" in e[1]]
+
+    def req_ok(ev, kind, addr):
+        c_ = ev[2][0]
+        cv = c_[0].v if not isinstance(c_, list) and hasattr(c_, "__getitem__") else c_.v
+        a_ = ev[2][1].v
+        return [("one memory request of the right kind", z3.BoolVal(ev[1].endswith(kind))),
+                ("the request uses the current context", cv == z3.Int("ctxid")),
+                ("the request addresses the immediate", a_ == addr)]
+
+    for a in (0, 1, 7, 2**32 - 1):
+        def loadw(ctx, final, s, events, a=a):
+            ms = mem_events(events)
+            if len(ms) != 1:
+                return [("exactly one memory request", z3.BoolVal(False))]
+            w = ms[0][3]
+            return req_ok(ms[0], "read_mem", a) + [(f"word element {i} lands at position {3 - i}", ctx.eq(final[3 - i].l, w[i].l)) for i in range(4)]
+        I[f"mem_loadw.{a}"] = lambda c, s, v, f=loadw: dict(out=[("any",)] * 4, consumed=4, relation=f)
+
+        def load(ctx, final, s, events, a=a):
+            ms = mem_events(events)
+            if len(ms) != 1:
+                return [("exactly one memory request", z3.BoolVal(False))]
+            return req_ok(ms[0], "read_mem", a) + [("the first element of the word is pushed", ctx.eq(final[0].l, ms[0][3][0].l))]
+        I[f"mem_load.{a}"] = lambda c, s, v, f=load: dict(out=[("any",)], consumed=0, relation=f)
+
+        def storew(ctx, final, s, events, a=a):
+            ms = mem_events(events)
+            if len(ms) != 1:
+                return [("exactly one memory request", z3.BoolVal(False))]
+            data = ms[0][2][2]
+            return req_ok(ms[0], "write_mem", a) + [(f"word element {i} written = stack item {3 - i}", ctx.eq(data[i].l, s[3 - i])) for i in range(4)]
+        I[f"mem_storew.{a}"] = lambda c, s, v, f=storew: dict(out=[("same", i) for i in range(4)], consumed=4, relation=f)
+
+        def store(ctx, final, s, events, a=a):
+            ms = mem_events(events)
+            if len(ms) != 1:
+                return [("exactly one memory request", z3.BoolVal(False))]
+            return req_ok(ms[0], "write_mem_element", a) + [("the element written is the top of the stack", ctx.eq(ms[0][2][2].l, s[0]))]
+        I[f"mem_store.{a}"] = lambda c, s, v, f=store: dict(out=[], consumed=1, relation=f)
+    return I
+
+
 def all_instrs():
     d = {}
+    d.update(mem_instrs())
     d.update(ext2_instrs())
     d.update(field_instrs())
     d.update(u32_instrs())
